@@ -84,10 +84,16 @@ type c06World struct {
 	txByFrom map[string]*c06Tx
 	txs      []*c06Tx
 	// noIgnore: this execution replaces every 'ignore' verdict by 'none'
-	noIgnore bool
-	dmarc    bool          // the pipeline applies DMARC
-	dnsDelay time.Duration // latency of the policy lookup
+	noIgnore  bool
+	dmarc     bool          // the pipeline applies DMARC
+	dnsDelay  time.Duration // latency of the policy lookup
+	g2        bool          // a second global check G2 is configured
+	twoCl     bool          // the transactions come from two concurrent sessions
+	splitChk  bool          // global checks configured by separate `check` directives
+	shareBias bool
 }
+
+var c06Checks = []string{"G", "G2", "X", "S", "S2", "D1", "D2"}
 
 func (w *c06World) genScenario() {
 	s := w.s
@@ -97,6 +103,15 @@ func (w *c06World) genScenario() {
 	w.xGlobal = s.T.Choose(st, 2) == 1
 	w.xInD1 = s.T.Choose(st, 2) == 1
 	w.partial = map[string]bool{"t1": s.T.Choose(st, 2) == 1, "t2": s.T.Choose(st, 2) == 1}
+	w.g2 = s.T.Choose(st, 2) == 1
+	w.twoCl = s.T.Choose(st, 2) == 1
+	w.splitChk = s.T.Choose(st, 2) == 1
+	if s.T.Choose(st, 4) == 0 {
+		// biased sub-scenario: everything that makes concurrent sessions share
+		// pipeline state at once (three separately configured global checks,
+		// two sessions whose senders belong to different source blocks)
+		w.g2, w.xGlobal, w.splitChk, w.twoCl, w.shareBias = true, true, true, true, true
+	}
 	w.dmarc = s.T.Choose(st, 3) != 0
 	w.dnsDelay = []time.Duration{0, 0, 100 * time.Millisecond, 10 * time.Second}[s.T.Choose(st, 4)]
 	w.genTxs()
@@ -139,7 +154,7 @@ func (w *c06World) build06() error {
 		delete(module.Initialized, n)
 	}
 	w.chk = map[string]*actors.ScriptedCheck{}
-	for _, n := range []string{"G", "X", "S", "D1", "D2"} {
+	for _, n := range c06Checks {
 		n := n
 		c := &actors.ScriptedCheck{Label: n}
 		c.PlanFor = func(m *module.MsgMetadata) *actors.CheckPlan {
@@ -156,6 +171,9 @@ func (w *c06World) build06() error {
 		delete(module.Initialized, n)
 	}
 	global := []config.Node{node("&G")}
+	if w.g2 {
+		global = append(global, node("&G2"))
+	}
 	if w.xGlobal {
 		global = append(global, node("&X"))
 	}
@@ -168,17 +186,31 @@ func (w *c06World) build06() error {
 		node("hostname", "mx.sim.example"), node("tls", "off"),
 		node("defer_sender_reject", map[bool]string{true: "yes", false: "no"}[w.deferRj]),
 		node("dmarc", map[bool]string{true: "yes", false: "no"}[w.dmarc]),
-		block("check", nil, global...),
+	}
+	if w.splitChk {
+		// one `check` directive per global check instead of one block
+		for _, g := range global {
+			cfg = append(cfg, block("check", nil, g))
+		}
+	} else {
+		cfg = append(cfg, block("check", nil, global...))
+	}
+	cfg = append(cfg,
 		block("source", []string{"origin.example"},
 			block("check", nil, node("&S")),
 			block("destination", []string{"a.example"}, block("check", nil, d1...), node("deliver_to", "&t1")),
 			block("destination", []string{"b.example"}, block("check", nil, node("&D2")), node("deliver_to", "&t2")),
 			rej),
+		block("source", []string{"other.example"},
+			block("check", nil, node("&S2")),
+			block("destination", []string{"a.example"}, node("deliver_to", "&t1")),
+			block("destination", []string{"b.example"}, node("deliver_to", "&t2")),
+			rej),
 		block("default_source", nil,
 			block("destination", []string{"a.example"}, node("deliver_to", "&t1")),
 			block("destination", []string{"b.example"}, node("deliver_to", "&t2")),
 			rej),
-	}
+	)
 	name := "smtp"
 	if w.lmtp {
 		name = "lmtp"
@@ -203,11 +235,14 @@ func (w *c06World) genTxs() {
 	const st = "scen"
 	c := &client{name: "cl1", ip: "198.51.100.1:40000"}
 	ntx := 1 + s.T.Choose(st, 2)
+	if w.twoCl {
+		ntx = 2 + s.T.Choose(st, 2)
+	}
 	w.txByFrom = map[string]*c06Tx{}
 	for j := 0; j < ntx; j++ {
-		dom := "origin.example"
-		if s.T.Choose(st, 4) == 0 {
-			dom = "other.example"
+		dom := []string{"origin.example", "origin.example", "other.example", "third.example"}[s.T.Choose(st, 4)]
+		if w.shareBias {
+			dom = []string{"origin.example", "other.example"}[j%2]
 		}
 		tx := &cTx{Marker: fmt.Sprintf("cl1-%d", j+1), From: fmt.Sprintf("s%d@%s", j+1, dom), Ending: endData}
 		nr := 1 + s.T.Choose(st, 3)
@@ -226,7 +261,7 @@ func (w *c06World) genTxs() {
 			hdr += "From: <who@" + fromDom + ">\r\n"
 		}
 		tx.Payload = []byte(hdr + "\r\nbody\r\n")
-		for _, n := range []string{"G", "X", "S", "D1", "D2"} {
+		for _, n := range c06Checks {
 			p := &actors.CheckPlan{Rcpt: map[string]actors.Verdict{}}
 			p.Conn = w.genVerdict("conn")
 			p.Sender = w.genVerdict("sender")
@@ -235,7 +270,7 @@ func (w *c06World) genTxs() {
 				// recipient-stage verdicts only for recipients the check is
 				// responsible for (replays to out-of-scope recipients are
 				// outside the statement)
-				inScope := n == "G" || n == "S" || (n == "X" && w.xGlobal) ||
+				inScope := n == "G" || n == "G2" || n == "S" || n == "S2" || (n == "X" && w.xGlobal) ||
 					((n == "D1" || (n == "X" && w.xInD1)) && rcptDomain(r) == "a.example") ||
 					(n == "D2" && rcptDomain(r) == "b.example")
 				if inScope {
@@ -300,12 +335,18 @@ func (w *c06World) model(tx *c06Tx) c06Expect {
 	e := c06Expect{rcptReject: map[string]bool{}}
 	fromOrigin := strings.HasSuffix(tx.From, "@origin.example")
 	globals := []string{"G"}
+	if w.g2 {
+		globals = append(globals, "G2")
+	}
 	if w.xGlobal {
 		globals = append(globals, "X")
 	}
 	var source []string
 	if fromOrigin {
 		source = []string{"S"}
+	}
+	if strings.HasSuffix(tx.From, "@other.example") {
+		source = []string{"S2"}
 	}
 	blockChecks := func(dom string) []string {
 		if !fromOrigin {
@@ -479,20 +520,36 @@ func (w *c06World) execute(tag string) (byMarker map[string]map[string]*actors.T
 		simrt.Harnessf("endpoint init failed: %v", berr)
 	}
 	// fresh result fields
-	c := &client{name: "cl" + tag, ip: "198.51.100.1:40000"}
-	for _, tx := range w.txs {
+	cls := []*client{{name: "cl" + tag, ip: "198.51.100.1:40000"}}
+	if w.twoCl {
+		// a second session runs concurrently (transactions are dealt out in turn)
+		cls = append(cls, &client{name: "cm" + tag, ip: "198.51.100.2:41000"})
+	}
+	for i, tx := range w.txs {
 		n := &cTx{Marker: tx.Marker, From: tx.From, Rcpts: tx.Rcpts, Ending: endData, Payload: tx.Payload}
 		tx.cTx = n
+		c := cls[i%len(cls)]
 		c.txs = append(c.txs, n)
 	}
-	w.clients = []*client{c}
+	w.clients = cls
 	w.net = simnet.New()
 	l := w.net.Listen(listenAddr)
 	s.Spawn("serve"+tag, nil, func() { w.endp.VerifServe(l) })
-	s.Spawn(c.name, nil, func() { w.runClient(c) })
-	res := s.Run(time.Hour, func() bool { return c.done })
-	if !c.done && len(s.Violations()) == 0 {
-		simrt.Harnessf("client did not finish (%v); parked=%v", res, s.ParkedKeys())
+	for _, c := range cls {
+		c := c
+		s.Spawn(c.name, nil, func() { w.runClient(c) })
+	}
+	allDone := func() bool {
+		for _, c := range cls {
+			if !c.done {
+				return false
+			}
+		}
+		return true
+	}
+	res := s.Run(time.Hour, allDone)
+	if !allDone() && len(s.Violations()) == 0 {
+		simrt.Harnessf("clients did not finish (%v); parked=%v", res, s.ParkedKeys())
 	}
 	s.Run(time.Second, nil)
 	closed := false
@@ -577,7 +634,7 @@ func RunC06(s *simrt.Sim, a *harness.Args, r *harness.Result) {
 			}
 		}
 	}
-	r.Shape = fmt.Sprintf("lmtp=%v defer=%v xg=%v xd=%v dmarc=%v/%v|%s", w.lmtp, w.deferRj, w.xGlobal, w.xInD1, w.dmarc, w.dnsDelay, w.planShape())
+	r.Shape = fmt.Sprintf("lmtp=%v defer=%v xg=%v xd=%v g2=%v 2cl=%v dmarc=%v/%v|%s", w.lmtp, w.deferRj, w.xGlobal, w.xInD1, w.g2, w.twoCl, w.dmarc, w.dnsDelay, w.planShape())
 	st := s.Stats()
 	nf := 0
 	for k, v := range st {
@@ -593,7 +650,7 @@ func (w *c06World) planShape() string {
 	var sb strings.Builder
 	for _, tx := range w.txs {
 		fmt.Fprintf(&sb, "[%s %v dm=%s/%s", tx.From, tx.Rcpts, tx.dm, tx.auth)
-		for _, n := range []string{"G", "X", "S", "D1", "D2"} {
+		for _, n := range c06Checks {
 			p := tx.plans[n]
 			fmt.Fprintf(&sb, " %s:%d%d%d", n, p.Conn, p.Sender, p.Body)
 			for _, r := range tx.Rcpts {
@@ -713,7 +770,7 @@ func (w *c06World) oracleC06(byMarker map[string]map[string]*actors.TxRecord) {
 func (w *c06World) stageCounts(tx *c06Tx, accepted bool, path string) {
 	s := w.s
 	fromOrigin := strings.HasSuffix(tx.From, "@origin.example")
-	for _, n := range []string{"G", "X", "S", "D1", "D2"} {
+	for _, n := range c06Checks {
 		perState := map[int]map[string]int{}
 		total := map[string]int{}
 		for _, c := range w.chk[n].Calls {
@@ -741,7 +798,8 @@ func (w *c06World) stageCounts(tx *c06Tx, accepted bool, path string) {
 			continue
 		}
 		scopeDom := map[string]string{"D1": "a.example", "D2": "b.example"}[n]
-		applicable := n == "G" || (n == "X" && (w.xGlobal || (w.xInD1 && fromOrigin))) || (fromOrigin && (n == "S" || n == "D1" || n == "D2"))
+		applicable := n == "G" || (n == "G2" && w.g2) || (n == "X" && (w.xGlobal || (w.xInD1 && fromOrigin))) || (fromOrigin && (n == "S" || n == "D1" || n == "D2")) ||
+			(n == "S2" && strings.HasSuffix(tx.From, "@other.example"))
 		if n == "X" && !w.xGlobal {
 			scopeDom = "a.example"
 		}
